@@ -178,6 +178,13 @@ def scen_value(ov, t, method):
     return datainterp.series_value({"t": [p[0] for p in pairs], "v": [p[1] for p in pairs]}, t, method)
 
 
+_ALLPOPS = {}
+
+
+def pop_all(pop):
+    return _ALLPOPS.get("pops") or [pop]
+
+
 def flow_value(pop, sel, ti, dt, lv):
     toks = sel.split(":")
     if sel.endswith(":flow"):
@@ -186,8 +193,18 @@ def flow_value(pop, sel, ti, dt, lv):
         if len(toks) == 2:
             toks.append("")
         src, dst, par = toks
-        links = [l for l in pop.links if (not src or l.source.name == src) and (not dst or l.dest.name == dst) and (not par or (l.parameter is not None and l.parameter.name == par))]
-        links = [l for l in links if l.source.pop is pop]
+        # documented forms: "src:" every link out of this population's src (transfers included), ":dst" every link into this
+        # population's dst (transfers from other populations included), "src:dst", "::"; an optional third token names the parameter
+        every = [l for p_ in pop_all(pop) for l in p_.links]
+        if src:
+            links = [l for l in every if l.source.pop is pop and l.source.name == src and (not dst or l.dest.name == dst)]
+        elif dst:
+            links = [l for l in every if l.dest.pop is pop and l.dest.name == dst]
+        else:
+            links = [l for l in every if l.source.pop is pop]
+        if par:
+            links = [l for l in links if l.parameter is not None and l.parameter.name == par]
+        links = list({id(l): l for l in links}.values())
     return sum(float(lv[l][ti]) for l in links) / dt
 
 
@@ -232,6 +249,7 @@ def check(case):
         for x in pop.characs:
             xv[x] = np.asarray(x.vals, dtype=float)
     pops = {pop.name: pop for pop in m.pops}
+    _ALLPOPS["pops"] = list(m.pops)
     feats = set()
     nontrivial = False
 
